@@ -33,6 +33,7 @@ RESOURCES = ["cpu", "gpu"]
 
 SCOPES = {
     "define": "declarations", "amend": "declarations", "static": "declarations", "tree": "declarations",
+    "declstatic": "declarations",
     "nglob": "declarations", "hashes": "propagation", "mark_pending": "propagation", "rescan_env": "startup",
     "setenv": "startup", "pop": "scheduler", "update_meta": "scheduler", "hold": "scheduler",
     "release": "scheduler", "reset_rerun": "completion", "completed": "completion", "set_state": "completion",
@@ -189,7 +190,14 @@ class KernelRun:
             running = await self.q(lambda: self.steps(StepState.RUNNING))
             anystep = await self.q(lambda: self.steps(None, attached=False))
             if creator is None:
-                pool = running if running and r.random() < 0.93 else anystep
+                pool = running if running and (not self.exotic or r.random() < 0.8) else anystep
+                if not running and not self.exotic:
+                    # nothing can declare anything now: let the build make progress, or start over
+                    # with the plan (the boot step, or another planning step) running again
+                    ans = await self.pop()
+                    if ans.startswith("ok none"):
+                        await self.replan()
+                    return
                 if not pool:
                     return
                 creator = r.choice(pool)
@@ -247,6 +255,22 @@ class KernelRun:
                 f"{hexlist(vol)} {need.name} {int(shell)} {int(safe)} {units_tok(res)} {pairs_tok(ovr)}")
         await self.tx(line, fn, lambda v: hexlist(sorted(v)))
 
+    async def replan(self):
+        """A plan step has to run again (its script or an input changed): pending, dispatch, reset."""
+        wf = self.wf
+        plans = await self.q(lambda: [l for l in self.steps(None) if wf.find(Step, l).get_need() == Need.PLAN
+                                      and wf.find(Step, l).get_state() in (StepState.SUCCEEDED, StepState.FAILED,
+                                                                           StepState.PENDING)])
+        if not plans:
+            return
+        step = self.r.choice(plans)
+        await self.step_op("mark_pending", step, fn=lambda: wf.mark_step_pending(wf.find(Step, step)))
+        if self.r.random() < 0.5:
+            await self.step_op("delete_hash", step, fn=lambda: wf.find(Step, step).delete_hash())
+        ans = await self.pop()
+        if ":run:" in ans and kkey("step", step) in ans:
+            await self.step_op("reset_rerun", step, fn=lambda: wf.find(Step, step).reset_for_rerun())
+
     async def static(self):
         r, wf = self.r, self.wf
         running = await self.q(lambda: self.steps(StepState.RUNNING))
@@ -254,8 +278,40 @@ class KernelRun:
             return
         creator = r.choice(running)
         paths = self.pick_paths((1, 1, 2, 3))
+        wanted = await self.q(lambda: self.files({FileState.UNDECLARED, FileState.MISSING}))
+        if wanted and r.random() < 0.6:
+            paths = r.sample(wanted, min(len(wanted), r.choice((1, 2, 3))))
         await self.tx(f"k static {kkey('step', creator)} {hexlist(paths)}",
                       lambda: wf.declare_static_files(wf.find(Step, creator), list(paths)),
+                      lambda v: hexlist(sorted(v)))
+
+    async def declstatic(self):
+        """The body of `DirectorHandler.declare_static`: trees, files and patterns in one transaction."""
+        r, wf = self.r, self.wf
+        running = await self.q(lambda: self.steps(StepState.RUNNING))
+        if not running:
+            return
+        creator = r.choice(running)
+        trees = sorted(r.sample(DIRS[:4], r.choice([0, 0, 1, 2])))
+        files = self.pick_paths((0, 1, 2, 3))
+        pats = []
+        for pattern in r.sample(PATTERNS, r.choice([0, 1, 1, 2])):
+            ng = NamedGlob(pattern)
+            ng.extend(r.sample(PATHS, r.choice([0, 2, 4, 6])))
+            pats.append((pattern, ng))
+
+        def fn():
+            cnode = wf.find(Step, creator)
+            to_check = {}
+            for t in trees:
+                to_check.update(wf.register_static_tree(cnode, t))
+            to_check.update(wf.declare_static_files(cnode, list(files)))
+            for _, ng in pats:
+                wf.register_nglob(cnode, ng)
+            return to_check
+
+        ptok = ";".join(f"{hexs(p)}:{hexlist(sorted(str(x) for x in ng.files()))}" for p, ng in pats) or "."
+        await self.tx(f"k declstatic {kkey('step', creator)} {hexlist(trees)} {hexlist(files)} {ptok}", fn,
                       lambda v: hexlist(sorted(v)))
 
     async def tree(self):
@@ -326,7 +382,7 @@ class KernelRun:
     async def confirm(self):
         unconf = await self.q(lambda: self.files({FileState.UNCONFIRMED}))
         if unconf:
-            await self.hashes(HashUpdateCause.CONFIRMED, self.r.sample(unconf, self.r.randint(1, len(unconf))), 0.8)
+            await self.hashes(HashUpdateCause.CONFIRMED, self.r.sample(unconf, self.r.randint(1, len(unconf))), 0.9)
 
     async def external(self):
         r = self.r
@@ -352,6 +408,10 @@ class KernelRun:
     async def pop(self):
         wf, sched = self.wf, self.sched
         implkit.reset_watchdog(implkit.WATCHDOGS[id(wf)])
+        hook = getattr(self, "before_pop", None)
+        if hook is not None:
+            async with wf.db:
+                hook()
         try:
             job = await sched.pop_next_job()
             if job is None:
@@ -397,10 +457,11 @@ class KernelRun:
                 await self.step_op("set_state", step, "PENDING",
                                    fn=lambda: wf.find(Step, step).set_state(StepState.PENDING))
             return
-        step = r.choice(running)
+        leaves = await self.q(lambda: [s_ for s_ in running if wf.find(Step, s_).get_need() != Need.PLAN])
+        step = r.choice(leaves) if leaves and r.random() < 0.8 else r.choice(running)
         outs = await self.q(lambda: [str(rec.path) for rec in wf.find(Step, step).out_paths()])
         k = r.random()
-        if k < 0.6:  # success
+        if k < 0.75:  # success
             todo = await self.q(lambda: [p for p in outs if wf.find(File, p).get_state()
                                          in (FileState.PLANNED, FileState.OUTDATED)])
             await self.hashes(HashUpdateCause.SUCCEEDED, todo, 1.0)
@@ -512,8 +573,9 @@ class KernelRun:
         await self.reset(cm)
         await self.define(boot=True)
         await self.pop()
-        menu = [(self.define, 22), (self.static, 8), (self.tree, 5), (self.nglob, 5), (self.amend, 8),
-                (self.confirm, 10), (self.external, 6), (self.pop, 16), (self.run_step, 14),
+        menu = [(self.define, 20), (self.static, 8), (self.declstatic, 5), (self.tree, 4), (self.nglob, 4),
+                (self.amend, 8),
+                (self.confirm, 12), (self.external, 6), (self.pop, 18), (self.run_step, 18),
                 (self.reset_rerun, 3), (self.hold_release, 5), (self.mark_pending, 2), (self.end_phase, 3),
                 (self.restart, 3)]
         fns = [f for f, w in menu for _ in range(w)]
